@@ -54,8 +54,12 @@ def classify(new_op, current):
     return None
 
 
-def check_commute(new_op, current, c, leaf_rows, base_rows=None):
-    """Return a list of violation dicts for one commute() result."""
+def check_commute(new_op, current, c, leaf_rows, base_rows=None, single_witness=False):
+    """Return a list of violation dicts for one commute() result.
+
+    ``single_witness``: judge the report on the target's actual rows only.  For a target that is a
+    tree, a report may legitimately rest on what is known about it (it is sorted, deduplicated, ...),
+    which permuted or duplicated witness rows would contradict."""
     v = []
     pair = f"{type(new_op).__name__}.commute(current={type(current.operation).__name__})"
     tcols = frozenset(current.target.columns)
@@ -77,7 +81,7 @@ def check_commute(new_op, current, c, leaf_rows, base_rows=None):
         except (interp.Unsupported, interp.IllFormed, KeyError):
             bump("target_unevaluable")
             return v
-    for rows in witness_variants(base_rows):
+    for rows in ([list(base_rows)] if single_witness else witness_variants(base_rows)):
         try:
             r1, cols1 = interp.apply_unary(current.operation, rows, tcols, leaf_rows)
             want, wcols = interp.apply_unary(new_op, r1, cols1, leaf_rows)
